@@ -41,7 +41,7 @@ PKG = "yv-g12"
 
 TIERS = {
     "quick": dict(gen=["Gen_Functions_quick.cfg"], mc="MC_Functions_quick.cfg", coverage=False,
-                  api="Gen_FunctionSet_quick.cfg", nrandom=4000, timeout=600),
+                  api="Gen_FunctionSet_quick.cfg", nrandom=6000, timeout=600),
     "thorough": dict(gen=["Gen_Functions_thorough_a.cfg", "Gen_Functions_thorough_b.cfg"], mc="MC_Functions_thorough.cfg",
                      coverage=True,
                      api="Gen_FunctionSet_thorough.cfg", nrandom=40000, timeout=2400),
